@@ -50,6 +50,24 @@ class Holds(Matcher):
         return f"<value containing {[show(w) for w in self.words]}>"
 
 
+class KeyColumns(Matcher):
+    """a clause record whose `columns` are exactly these, in order (and that holds them nowhere else)"""
+
+    def __init__(self, cols):
+        self.cols = cols
+
+    def match(self, actual):
+        if not isinstance(actual, dict) or not isinstance(actual.get("columns"), list) or len(actual["columns"]) != len(self.cols):
+            return False
+        if not all(deep_eq(a, b) for a, b in zip(actual["columns"], self.cols)):
+            return False
+        return all(k in ("columns", "type") or v in (None, [], {}) for k, v in actual.items())
+
+    def __repr__(self):
+        from .common import show
+        return f"<record with columns {[show(c) for c in self.cols]}>"
+
+
 GROUPS = {
     "hql": ["STORED_AS", "LOCATION", "ROW_FORMAT", "ROW_FORMAT_SERDE", "FIELDS_TERMINATED", "TBLPROPERTIES", "PARTITIONED_BY",
             "CLUSTERED_BY", "CLUSTERED_BY_2", "INTO_BUCKETS", "COMMENT", "COMMENT_ESC"],
@@ -57,9 +75,9 @@ GROUPS = {
     "oracle": ["TABLESPACE", "STORAGE", "ORGANIZATION_INDEX"],
     "redshift": ["DISTSTYLE", "DISTKEY"],
     "snowflake": ["CLUSTER_BY", "CLUSTER_BY_2", "COMMENT_EQ", "RETENTION", "CHANGE_TRACKING", "WITH_TAG"],
-    "mssql": ["ON", "TEXTIMAGE_ON", "WITH"],
+    "mssql": ["ON", "TEXTIMAGE_ON", "WITH", "WITH_KW"],
     "bigquery": ["OPTIONS", "PARTITION_BY_F", "CLUSTER_BY_BARE"],
-    "postgres": ["INHERITS", "PARTITION_BY_RANGE"],
+    "postgres": ["INHERITS", "PARTITION_BY_RANGE", "PARTITION_BY_2"],
     "spark": ["USING"],
     "db2": ["IN", "INDEX_IN", "ORGANIZE_BY"],
 }
@@ -127,6 +145,10 @@ def build(ctx, group="hql", tier="quick", only=None, final=None, final_modes=Non
         "ON": ("on", [("KW", "ON"), (lm.custom("[PRIMARY]", ["[PRIMARY]", "[primary]", "[fg_1]"], "BR"), "v")]),
         "TEXTIMAGE_ON": ("textimage_on", [("KW", "TEXTIMAGE_ON"), (lm.custom("[PRIMARY]", ["[PRIMARY]", "[primary]", "[fg_1]"], "BR"), "v")]),
         "WITH": ("with", [("KW", "WITH"), P["("], (pl("DATA_COMPRESSION", ["DATA_COMPRESSION", "data_compression", "Opt_1"]), "k"), P["="], (val, "v"), P[")"]]),
+        # the documented values of DATA_COMPRESSION are NONE | ROW | PAGE: ROW is also a word of the after-columns vocabulary
+        "WITH_KW": ("with", [("KW", "WITH"), P["("], (pl("DATA_COMPRESSION", ["DATA_COMPRESSION", "data_compression", "Opt_1"]), "k"), P["="], ("KW", "ROW", "v"), P[")"]]),
+        # a partitioning key of two columns: both are columns of the key, in order
+        "PARTITION_BY_2": ("partition_by", [("KW", "PARTITION"), ("KW", "BY"), (pl("HASH", ["HASH", "hash", "LIST", "list", "RANGE", "Range"]), "k"), P["("], (ca, "c1"), P[","], (cb, "c2"), P[")"]]),
         "OPTIONS": ("options", [("KW", "OPTIONS"), P["("], (val2, "k"), P["="], (s1, "v"), P[")"]]),
         "PARTITION_BY_F": ("partition_by", [("KW", "PARTITION"), ("KW", "BY"), (pl("DATE", ["DATE", "date", "Date"]), "k"), P["("], (cb, "v"), P[")"]]),
         "CLUSTER_BY_BARE": ("cluster_by", [("KW", "CLUSTER"), ("KW", "BY"), (ca, "v")]),
@@ -161,6 +183,8 @@ def build(ctx, group="hql", tier="quick", only=None, final=None, final_modes=Non
             e = s.words(home, kind, ws)
         s.eps(e, home)
         kinds[kind] = clause_expect(key)
+        if cname == "PARTITION_BY_2":
+            kinds[kind] = lambda roles, old: {**old, "partition_by": KeyColumns([roles["c1"], roles["c2"]])}
     from . import table as T
     base = T.make_oracle(s)
     allk = dict(base.kinds)
